@@ -105,6 +105,7 @@ func Harness_C09_SupplyAndMappingFrame() {
 	verifConfig("fault:SendCoinsFromModuleToAccount", 1)
 	k, ms, ctx := setup()
 	d := verifSymStr("obsDenom")
+	verifAssume(sdk.ValidateDenom(d) == nil) // only valid denoms have a supply (the bank panics on others)
 	sup0 := k.sup(ctx, d)
 	base0, baseErr0 := k.DenomPairs.Get(ctx, d)
 	l2 := k.nextL2(ctx)
